@@ -215,6 +215,39 @@ type sharedState struct {
 	paths     int64
 	maxPaths  int64
 	enumCache sync.Map
+	provenMu  sync.Mutex
+	proven    map[uint64][][]uint64 // goal hash -> path-condition hash sets under which it was proved
+}
+
+// provenUnder reports whether goal was already proved under a subset of the
+// current path condition (a goal proved from fewer assumptions stays proved).
+func (s *sharedState) provenUnder(goal uint64, pc map[uint64]bool) bool {
+	s.provenMu.Lock()
+	defer s.provenMu.Unlock()
+	for _, set := range s.proven[goal] {
+		ok := true
+		for _, h := range set {
+			if !pc[h] {
+				ok = false
+				break
+			}
+		}
+		if ok {
+			return true
+		}
+	}
+	return false
+}
+
+func (s *sharedState) recordProven(goal uint64, pc []uint64) {
+	s.provenMu.Lock()
+	defer s.provenMu.Unlock()
+	if s.proven == nil {
+		s.proven = map[uint64][][]uint64{}
+	}
+	if len(s.proven[goal]) < 8 {
+		s.proven[goal] = append(s.proven[goal], pc)
+	}
 }
 
 func (s *sharedState) overBudget() bool { return atomic.LoadInt64(&s.paths) > s.maxPaths }
@@ -254,6 +287,7 @@ type Machine struct {
 	alias         map[string]*Term
 	varBound      map[string]int
 	syncMaps      map[*Cell]*MapObj
+	syncPools     map[*Cell][]Val
 	prefix        []int
 	pos           int
 	spawn         [][]int
@@ -382,6 +416,7 @@ func (m *Machine) resetPath(prefix []int) {
 	m.alias = nil
 	m.fileContent, m.fileSet = nil, false
 	m.syncMaps = nil
+	m.syncPools = nil
 	m.multi = nil
 	m.pcSat = true
 	m.prefix = append([]int(nil), prefix...)
